@@ -626,7 +626,8 @@ pub fn run(case: &Case, mode: Mode) -> Outcome {
             let i = choice as usize;
             let runnable = !acts[i].done() && (!polled_once[i] || !asleep[i] || acts[i].task().is_woken() || sched.one_in(16));
             if runnable {
-                if polled_once[i] && asleep[i] && !acts[i].task().is_woken() {
+                let spurious = polled_once[i] && asleep[i] && !acts[i].task().is_woken();
+                if spurious {
                     out.stats.bump("fault.spurious_poll");
                 }
                 polled_once[i] = true;
@@ -645,6 +646,12 @@ pub fn run(case: &Case, mode: Mode) -> Outcome {
                 }
                 if moved {
                     trace!("T{step} ACT {} moved done={}", acts[i].name(), acts[i].done());
+                }
+                // A task whose last poll returned Pending and whose waker has not been invoked since makes progress when
+                // it is polled for no reason: the condition it waits for was satisfied without a wake-up. Without this
+                // the occasional spurious poll would hide every lost wake-up from the audit at the end of the run.
+                if moved && spurious && mode == Mode::C01 {
+                    out.violate("liveness-delivery", "lost-wakeup", format!("{} was asleep (last poll Pending, waker not invoked since) and yet made progress when polled spuriously at step {step}", acts[i].name()), step as u64);
                 }
                 did |= moved;
                 if moved {
